@@ -112,18 +112,21 @@ def upLoop (f : Frame) : List Frame → List Frame × Bool
     if p'.d.kind == .test && Frame.complete p' then upLoop p' rest
     else (p' :: rest, p'.d.kind == .test && p'.d.variableArgs)
 
+/-- a finished top-level command is recorded in `result` with the pending hash comments -/
+def record (s : PState) (f : Frame) (rest : List Frame) : PState :=
+  match rest with
+  | [] => { s with result := s.result ++ [Frame.toNode f s.comments], comments := [] }
+  | _ => s
+
 /-- `__up()` -/
 def up (s : PState) : Except String PState :=
   match s.stack with
   | [] => .error "AttributeError: NoneType (up without current command)"
   | f :: rest =>
-    let s1 : PState :=
-      match rest with
-      | [] => { s with result := s.result ++ [Frame.toNode f s.comments], comments := [] }
-      | _ => s
-    let (stk, exp) := upLoop f rest
-    .ok { s1 with stack := stk,
-                  expected := if exp then some [.comma, .right_parenthesis] else s1.expected }
+    .ok { record s f rest with
+            stack := (upLoop f rest).1,
+            expected := if (upLoop f rest).2 then some [.comma, .right_parenthesis]
+                        else (record s f rest).expected }
 
 structure ComplOut where
   ok : Bool
